@@ -761,3 +761,37 @@ def nt_document_table(ctx, clause):
                       "document (%s): expected %s with %d error lines, the reader gives %s %s with %s error lines" % (
                           label, want, errors, status, got, nerr)))
     return obs
+
+
+
+def rdflib_literal_datatype_source(ctx, clause):
+    """For inputs parsed by rdflib the parser has already decided what kind of literal it read: the datatype handed to the
+    model Literal comes from the rdflib term (its datatype, its language) or is the xsd:string constant - never from the
+    lexical form.  A datatype computed from the content re-types plain strings that merely look like something else
+    ("08001" -> integer, "a@b.org" -> langString)."""
+    g, p, r = ctx.flow, ctx.p, ctx.r
+    cls = p.find_class("RdflibTripleYielder")
+    obs, n = [], 0
+    for c in [cls] + cls.all_subclasses():
+        for m in c.methods.values():
+            for x in walk_own(m.node):
+                if not (isinstance(x, ast.Call) and any(k.arg == "elem_type" for k in x.keywords)):
+                    continue
+                site = r.site_of.get(id(x))
+                if site is None or site.kind != "ctor" or site.recv_types.name != "Literal":
+                    continue
+                n += 1
+                e = [k.value for k in x.keywords if k.arg == "elem_type"][0]
+                back = g.back([g.enode(e)] + [g.enode(y) for y in ast.walk(e) if isinstance(y, ast.expr)], labels=("copy", "derive"))
+                # lexical sources: str(<the rdflib term>) and anything assigned from it
+                lex = []
+                for y in walk_own(m.node):
+                    if isinstance(y, ast.Call) and isinstance(y.func, ast.Name) and y.func.id == "str" and y.args and isinstance(y.args[0], ast.Name) \
+                            and y.args[0].id in m.params and ("e", id(y)) in back:
+                        lex.append(y)
+                key = "R-FLOW|rdflib-literal-datatype|%s|%s" % (m.short, m.key(e)[:50])
+                obs.append(Ob(clause, "R-FLOW", key, m.loc(x), not lex,
+                              "%s takes the datatype of a literal from the rdflib term (or a constant)" % m.short if not lex else
+                              "%s computes the datatype `%s` from the lexical form (`%s`): a plain string parsed by rdflib is re-typed "
+                              "by what its content looks like" % (m.short, norm(e)[:60], norm(lex[0]))))
+    return obs, n
